@@ -51,6 +51,10 @@ def check_css(case, rec, distinct=False):
         rec.nontrivial(distinct=distinct)
     rec.cls('syntax-' + cfg.get('syntax', 'css'))
     c = {'type': 'stylesheet', 'syntax': cfg.get('syntax', 'css'), 'options': dict(cfg.get('options') or {})}
+    if cfg.get('scope'):
+        # editor scopes that keep property snippets (`@@property`, `@@global`): the same lines as without a scope
+        c['context'] = {'name': cfg['scope']}
+        rec.cls('scope-' + cfg['scope'])
     rec.evals()
     try:
         with guard():
@@ -194,7 +198,8 @@ def strategy():
         'stylesheet.after': st.sampled_from([';', '', ' ;']),
         'stylesheet.unitless': st.sampled_from([C.DEFAULTS['stylesheet.unitless'], [], ['margin', 'z-index']]),
     })
-    cfg = st.builds(lambda s, o: {'syntax': s, 'options': o}, st.sampled_from(['css', 'scss', 'sass', 'less', 'sss', 'stylus']), opts)
+    cfg = st.builds(lambda s, o, sc: dict({'syntax': s, 'options': o}, **({'scope': sc} if sc else {})), st.sampled_from(['css', 'scss', 'sass', 'less', 'sss', 'stylus']), opts,
+                    st.sampled_from([None, None, None, '@@property', '@@global']))
     return st.builds(lambda ps, c: {'props': ps, 'cfg': c}, st.lists(prop, min_size=1, max_size=3), cfg)
 
 
